@@ -18,10 +18,12 @@ cp "$SRC/patch.diff" "$DEST/patch.diff"
 DEMO=""; [ -f "$SRC/demo_test.go" ] && DEMO=test; [ -d "$SRC/demo" ] && DEMO=prog
 [ "$DEMO" = test ] && cp "$SRC/demo_test.go" "$DEST/"; [ "$DEMO" = prog ] && cp -r "$SRC/demo" "$DEST/"
 PKG="${SEED_PKG:-}"
+# run only the demonstration's own tests unless told otherwise
+if [ -z "${SEED_RUN:-}" ] && [ -f "$SRC/demo_test.go" ]; then SEED_RUN="^($(grep -oE '^func (Test[A-Za-z0-9_]*)' "$SRC/demo_test.go" | awk '{print $2}' | paste -sd'|'))\$"; fi
 run_demo() {
   if [ "$DEMO" = test ]; then
     cp "$SRC/demo_test.go" "$WT/$PKG/zz_seed_demo_test.go"
-    (cd "$WT/$PKG" && timeout 600 go test -vet=off -count=1 -run "${SEED_RUN:-.}" . > /tmp/seed_demo_$ID.log 2>&1); rc=$?
+    (cd "$WT/$PKG" && timeout 600 go test -vet=off -count=1 ${SEED_TESTFLAGS:-} -run "${SEED_RUN:-.}" . > /tmp/seed_demo_$ID.log 2>&1); rc=$?
     rm -f "$WT/$PKG/zz_seed_demo_test.go"; return $rc
   else
     mkdir -p "$WT/zz_seed_demo" && cp "$SRC"/demo/*.go "$WT/zz_seed_demo/"
